@@ -158,6 +158,88 @@ func checkC12(r *Run) {
 			}
 		}
 	}
+	// the automatic change address is chosen among the owners of ALL spent outputs, the forced extra input included
+	var extraAppend *ssa.Call
+	for _, cs := range r.CallSites(fn, "coin.Transaction.PushInput") {
+		if !glob("transaction.uxBalancesSub(*)[0].Hash", ff.Term(cs.Common().Args[1])) {
+			continue
+		}
+		for _, in := range cs.Block().Instrs {
+			if c, ok := in.(*ssa.Call); ok && calleeName(&c.Call) == "append" && strings.Contains(typeShort(c.Type()), "UxBalance") {
+				extraAppend = c
+			}
+		}
+		// the append may sit in a dominating block of the push
+		if extraAppend == nil {
+			for d := cs.Block().Idom(); d != nil && extraAppend == nil; d = d.Idom() {
+				for _, in := range d.Instrs {
+					if c, ok := in.(*ssa.Call); ok && calleeName(&c.Call) == "append" && strings.Contains(typeShort(c.Type()), "UxBalance") && glob("*[transaction.uxBalancesSub(*)[0]])", ff.Term(c)) {
+						extraAppend = c
+					}
+				}
+			}
+		}
+	}
+	r.Check("C12-R5", cr+": the forced extra input is appended to the spends", r.P.Pos(fn.Pos()), extraAppend != nil, "")
+	nAddr := 0
+	for _, st := range ff.StoreFacts() {
+		sto, ok := st.In.(*ssa.Store)
+		if !ok {
+			continue
+		}
+		call, ok := sto.Val.(*ssa.Call)
+		if !ok || calleeName(&call.Call) != "cipher.Address.Bytes" {
+			continue
+		}
+		nAddr++
+		// the slice whose owners are collected
+		var X ssa.Value
+		var walkv func(v ssa.Value, d int)
+		walkv = func(v ssa.Value, d int) {
+			if d > 6 || X != nil {
+				return
+			}
+			switch x := v.(type) {
+			case *ssa.UnOp:
+				walkv(x.X, d+1)
+			case *ssa.FieldAddr:
+				walkv(x.X, d+1)
+			case *ssa.Field:
+				walkv(x.X, d+1)
+			case *ssa.IndexAddr:
+				X = x.X
+			case *ssa.Alloc:
+				// range value spilled to a local: follow the store in the same block
+				for _, rf := range *x.Referrers() {
+					if s2, ok := rf.(*ssa.Store); ok && s2.Addr == x && s2.Block() == sto.Block() {
+						walkv(s2.Val, d+1)
+					}
+				}
+			}
+		}
+		walkv(call.Call.Args[0], 0)
+		reaches := false
+		seen := map[ssa.Value]bool{}
+		var up func(v ssa.Value)
+		up = func(v ssa.Value) {
+			if v == nil || seen[v] {
+				return
+			}
+			seen[v] = true
+			if v == ssa.Value(extraAppend) {
+				reaches = true
+			}
+			if ph, ok := v.(*ssa.Phi); ok {
+				for _, e := range ph.Edges {
+					up(e)
+				}
+			}
+		}
+		up(X)
+		lp := ff.innermost[sto.Block()]
+		r.Check("C12-R5", cr+": the automatic change address is chosen among the owners of all spends including the forced extra input", r.P.Pos(sto.Pos()), X != nil && extraAppend != nil && reaches && lp != nil && ff.everyIteration(sto.Block(), lp), "the owner list ranges over "+trunc(ff.Term(X), 120))
+	}
+	r.Check("C12-R5", cr+": owner-collection sites", "", nAddr == 1, "")
 	r.Check("C12-R5", cr+": PushOutput sites", "", nOut == 3, "")
 	r.RequireStore("C12-R5", cr, "the coins handed to the distributor are the requested coins, index by index", "make([]uint64, len($0.To))[i] := $0.To[i].Coins")
 	// fee: remaining = total - RequiredFee(total, user burn factor) with the same total; user burn factor at every call in the package
